@@ -227,13 +227,20 @@ theorem relocate_shrinks (h : Holder) (hat : AddrTabOK h) (base : Nat) : AllRel 
       rw [heq] at hk
       dsimp only at hk
       split
-      · split
-        · exact sameSizes_shrinks hk.1
-        · rename_i id hid
-          dsimp only
-          have hcount : st.count ≤ h.entries.length := by
-            have := countNone_le h.entries; omega
-          have hshr : AllRel Shrinks st.secs (modifySec st.secs id fun s =>
+      · exact sameSizes_shrinks hk.1
+      · rename_i id hid
+        have hcount : st.count ≤ h.entries.length := by
+          have := countNone_le h.entries; omega
+        have hlen : ((st.table ++ zeros (st.count * 8)).take (st.count * 8)).length = st.count * 8 := by
+          rw [List.length_take, List.length_append, zeros_length]; omega
+        have hres : ∀ s ∈ st.secs, (s.id == id) = true → st.count * 8 ≤ s.realSize := by
+          intro s hs hsid
+          obtain ⟨a, ha, hab⟩ := hk.1.mem_right s hs
+          have hreal := hat.2 id hid a ha (by rw [← hab.1]; simpa using hsid)
+          rw [← hab.2.2.2.1] at hreal
+          omega
+        split
+        · have hshr : AllRel Shrinks st.secs (modifySec st.secs id fun s =>
               { s with data := (st.table ++ zeros (st.count * 8)).take (st.count * 8), vsize := st.count * 8 }) := by
             unfold modifySec
             apply AllRel.map_right_mem
@@ -241,15 +248,25 @@ theorem relocate_shrinks (h : Holder) (hat : AddrTabOK h) (base : Nat) : AllRel 
             split
             · rename_i hsid
               refine ⟨rfl, ?_, rfl⟩
-              obtain ⟨a, ha, hab⟩ := hk.1.mem_right s hs
-              have hreal := hat.2 id hid a ha (by rw [← hab.1]; simpa using hsid)
-              rw [← hab.2.2.2.1] at hreal
+              have := hres s hs hsid
               show max (st.count * 8) ((st.table ++ zeros (st.count * 8)).take (st.count * 8)).length ≤ s.realSize
-              rw [List.length_take, List.length_append, zeros_length]
-              omega
+              rw [hlen]; omega
             · exact ⟨rfl, Nat.le_refl _, rfl⟩
           exact Shrinks.trans_all (sameSizes_shrinks hk.1) hshr
-      · exact sameSizes_shrinks hk.1
+        · have hshr : AllRel Shrinks st.secs (modifySec st.secs id fun s =>
+              { s with data := (st.table ++ zeros (st.count * 8)).take (st.count * 8) }) := by
+            unfold modifySec
+            apply AllRel.map_right_mem
+            intro s hs
+            split
+            · rename_i hsid
+              refine ⟨rfl, ?_, rfl⟩
+              have := hres s hs hsid
+              have hv : s.vsize ≤ s.realSize := by unfold Section.realSize; omega
+              show max s.vsize ((st.table ++ zeros (st.count * 8)).take (st.count * 8)).length ≤ s.realSize
+              rw [hlen]; omega
+            · exact ⟨rfl, Nat.le_refl _, rfl⟩
+          exact Shrinks.trans_all (sameSizes_shrinks hk.1) hshr
 
 /-- `relocate_to_base` never increases `code_size()` -/
 theorem relocate_code_size_le (h : Holder) (hinv : InvS h.secs) (hat : AddrTabOK h) (base : Nat) :
